@@ -203,7 +203,7 @@ func (p *provider) Close() error {
 
 	for _, s := range scopes {
 		if s != nil {
-			if err := s.Close(); err != nil {
+			if err := s.closeOwned(); err != nil {
 				errors = append(errors, fmt.Errorf("scope %s: %w", s.ID(), err))
 			}
 		}
